@@ -57,7 +57,11 @@ def example_grammars():
     atom = num | pp.Group(pp.Suppress("(") + expr + pp.Suppress(")"))
     term = atom + pp.ZeroOrMore(pp.one_of("* /") + atom)
     expr <<= term + pp.ZeroOrMore(pp.one_of("+ -") + term)
-    return [("json", val, ['{a:[1,2,{b:a}],b:12}', '[a,b,[1,[2]],{}]', 'ab']), ("arith", expr, ["1+2*(12-1)/2", "(1)", "1*2*2+1"])]
+    # a Combine(adjacent=False) region: whitespace and comments ARE skipped between its pieces (only adjacent=True forbids them)
+    path = pp.Combine(pp.Word("ab") + pp.ZeroOrMore("." + pp.Word("ab")), adjacent=False)
+    use = pp.OneOrMore(pp.Group(pp.Literal("@") + path("p") + pp.Suppress(";")))
+    return [("json", val, ['{a:[1,2,{b:a}],b:12}', '[a,b,[1,[2]],{}]', 'ab']), ("arith", expr, ["1+2*(12-1)/2", "(1)", "1*2*2+1"]),
+            ("combine-nonadjacent", use, ["@ab.ba;@a;", "@a.b.ab;"])]
 
 
 def parse_view(e, s):
